@@ -77,7 +77,7 @@ META = {
   rule="parser-accepted inputs among reference-encoded hostile messages and library-built packets with mostly arbitrary-byte labels and strings (invalid UTF-8, NUL, dots, backslashes, empty and maximal strings): every public observer (Debug/Display of packet, names, labels, records, RDATA, character-strings; clone; into_owned; Hash; ==; is_subdomain_of/without/is_link_local; match_qtype/qclass; TXT attributes/long_attributes/String::try_from; SVCB params) applied to every part under catch_unwind; outcome class compared with the model's observers; for valid UTF-8 the exact Display text; non-trivial = accepted inputs",
   assumptions=STD + ["panics inside std::fmt and the exact lossy text are outside the model"], timeout=dict(quick=600, thorough=7200)),
  "C16": dict(
-  extra_modules=["C12C16More"],
+  extra_modules=["C12C16More", "TieEnv"],
   rule="for each of the 43 RDATA kinds 25 (thorough 400) records, each both built from parts and borrowed from a receive buffer: into_owned and clone compared with the original through every accessor (canonical text), ==, both serialisers and Hash; pairs differing only in TTL/cache-flush, and pairs of different records, through == / DefaultHasher / HashSet::contains; questions; names built from parts vs received; InstanceInformation built by inserting the same addresses and ports in different orders; compared with the model's into_owned / hash feeds",
   assumptions=STD + ["std Hash of slices/Vec/primitive types feeds length prefix and content; DefaultHasher is a function of the feed"], timeout=dict(quick=600, thorough=7200)),
  "C14": dict(
